@@ -489,3 +489,5 @@ def run(ctx):
     _b.check_predicates(ctx, 'C09.RP', 'C09')
     from .. import boundaries as _b
     _b.check_updates(ctx, 'C09.RU', 'C09')
+    from .. import boundaries as _b
+    _b.check_counts(ctx, 'C09.RQ', 'C09')
